@@ -60,6 +60,9 @@ class Ctx:
         os.makedirs(self.out, exist_ok=True)
         self.findings = load_findings()
         self.open_devs = {f['deviation']: f for f in self.findings.get('open', []) if f.get('deviation')}
+        for d in os.environ.get('VERIF_EXTRA_DEVS', '').split(','):      # deviations under triage, not yet listed
+            if d and d not in self.open_devs:
+                self.open_devs[d] = {'deviation': d, 'what': d + ' (VERIF_EXTRA_DEVS)'}
         self.mc_states = 0
         self.mc_transitions = 0
         self.trace_states = 0
